@@ -239,7 +239,8 @@ def handle (st : DState) (req : Sexp) : Except String (DState × Sexp) :=
   | .list [.atom "probes", v] => do
       let ps := Contain.probes (← valOf v)
       .ok (st, .list [.atom (toString ps.length),
-                      .atom (toString (ps.filter (fun p => p.2 != .typeOf && !Contain.isExact p.1)).length)])
+                      .atom (toString (ps.filter (fun p => p.2 != .typeOf && p.2 != .hashClass && !Contain.isExact p.1)).length),
+                      .atom (toString (ps.filter (fun p => p.2 == .hashClass)).length)])
   | .list [.atom "updateArg", stg, src, traced, isSelf] => do
       let st' ← (match stg with | .atom "replicate" => .ok Anno.Strategy.replicate | .atom "ignore" => .ok .ignore
                                 | .atom "omit" => .ok .omit | _ => .error "bad strategy")
